@@ -420,14 +420,16 @@ Qed.
 
 (* analyze_python_source reports nothing iff the visitor reports nothing and no imported root has a
    sibling file or directory of that name *)
-Lemma source_viols_nil sibling ap t :
-  source_viols sibling ap t = [] <-> visit ap false t = [] /\ forall r, In r (roots t) -> sibling r = false.
+Lemma source_viols_nil sibling local ap t :
+  source_viols sibling local ap t = [] <->
+  visit ap false t = [] /\ (forall r, In r (roots t) -> sibling r = false) /\ local = false.
 Proof.
   unfold source_viols. split.
-  - intros H. apply app_eq_nil in H as [H1 H2]. split; [exact H1|]. intros r Hr.
-    rewrite flat_map_nil in H2. specialize (H2 r (proj2 (sorted_set_In r _) Hr)).
-    destruct (sibling r); [discriminate|reflexivity].
-  - intros [H1 H2]. rewrite H1. cbn [app]. apply flat_map_nil. intros r Hr.
+  - intros H. apply app_eq_nil in H as [H1 H2]. apply app_eq_nil in H2 as [H2 H3]. split; [exact H1|]. split.
+    + intros r Hr. rewrite flat_map_nil in H2. specialize (H2 r (proj2 (sorted_set_In r _) Hr)).
+      destruct (sibling r); [discriminate|reflexivity].
+    + destruct local; [discriminate|reflexivity].
+  - intros [H1 [H2 H3]]. rewrite H1, H3. cbn [app]. rewrite app_nil_r. apply flat_map_nil. intros r Hr.
     apply (proj1 (sorted_set_In r _)) in Hr. rewrite (H2 r Hr). reflexivity.
 Qed.
 
